@@ -28,7 +28,7 @@ def _int(x, what):
         raise Unenumerable('unbounded variable/coefficient in %s' % what)
     r = round(x)
     if abs(x - r) > 1e-9:
-        raise HarnessError('non-integral datum %r in %s' % (x, what))
+        raise Unenumerable('non-integral datum %r in %s' % (x, what))
     return int(r)
 
 
@@ -77,7 +77,16 @@ def extract(lp):
     cons = []
     for n, c in lp.constraints.items():
         terms = [(idx[id(v)], _int(a, n)) for v, a in c.items() if a != 0]
-        cons.append((terms, _int(c.constant, n), c.sense))
+        k = c.constant
+        if abs(k - round(k)) <= 1e-9:
+            k = int(round(k))
+        elif c.sense < 0:       # sum + k <= 0 over integers  <=>  sum + ceil(k) <= 0
+            k = math.ceil(k)
+        elif c.sense > 0:       # sum + k >= 0               <=>  sum + floor(k) >= 0
+            k = math.floor(k)
+        else:                   # sum + k == 0 with non-integral k: no integer solution
+            terms, k = [], 1
+        cons.append((terms, k, c.sense))
     o = lp.objective
     ot = [(idx[id(v)], _int(a, 'objective')) for v, a in o.items() if a != 0]
     sign = 1 if lp.sense == constants.LpMaximize else -1   # we maximise sign*objective
